@@ -5,4 +5,6 @@ From Verif Require Import Lib.Bytes Model.WalletKeys.
 Extraction Language OCaml.
 Extraction "../ocaml/c09_model.ml" bz zb wallet_from_seed wallet_from_account_key wallet_step
   key_address key_wif key_wif_public key_is_private lib_path_expand lib_key_structure spec_path spec_purpose
-  script_type_id spec_master spec_derive spec_derive_pub spec_neuter coin_of is_leaf leaf_len.
+  script_type_id spec_master spec_derive spec_derive_pub spec_neuter coin_of is_leaf leaf_len
+  lib_keys_query lib_keys_addresses lib_keys_address_chain lib_addresslist_rows row_depth key_depth
+  spec_bip39_seed wallet_from_mnemonic.
